@@ -121,6 +121,7 @@ func checkC17(c *Ctx, r *Report) {
 	r.rule("C17.R4", "request command codes and mux handler names are defined by the dictionaries; both dictionaries are loaded on the way to the SBI server start", 8)
 	r.rule("C17.R5", "the error of every diam Marshal/Unmarshal call is tested on its own result before the message is used", 8)
 	r.rule("C17.R7", "every message is decoded into a struct that is empty: a new local object per decode (go-diameter only sets the members whose AVPs are present, so optional groups of an earlier message would stay)", 4)
+	r.rule("C17.R8", "the named constants of an Enumerated AVP's Go type carry the codes the dictionary gives the items of the same name (the peer - and the switch statements on both sides - mean the dictionary's value)", 4)
 	r.rule("C17.R6", "AVP code constants of ccs_diameter/code that name a dictionary AVP carry that AVP's code", 20)
 
 	dictPkg := c.pkg("ccs_diameter/dict")
@@ -235,6 +236,7 @@ func checkC17(c *Ctx, r *Report) {
 	dtPkg := c.pkg("ccs_diameter/datatype")
 	ntags := 0
 	usedNames := map[string]*dAVP{}
+	enumDone := map[string]bool{}
 	for _, name := range dtPkg.Types.Scope().Names() {
 		tn, ok := dtPkg.Types.Scope().Lookup(name).(*types.TypeName)
 		if !ok {
@@ -244,11 +246,18 @@ func checkC17(c *Ctx, r *Report) {
 		if !ok {
 			continue
 		}
+		seenAvp := map[string]string{} // AVP name -> member that carries it, within this struct
 		for i := 0; i < st.NumFields(); i++ {
 			f := st.Field(i)
 			tag := reflect.StructTag(st.Tag(i))
 			avpName := parseAvpTagName(tag)
 			key := name + "." + f.Name()
+			if avpName != "" {
+				if other, dup := seenAvp[avpName]; dup {
+					r.viol("C17.R1", key+"|duplicate "+avpName, c.rel(f.Pos()), "members "+other+" and "+f.Name()+" of "+name+" both carry avp:\""+avpName+"\": the receiver fills both from the one AVP and the sender emits it twice, so what was put into "+f.Name()+" is not what arrives in it (a copied tag that was not renamed)")
+				}
+				seenAvp[avpName] = f.Name()
+			}
 			if avpName == "" {
 				// go-diameter skips a member without an AVP name silently, in both directions
 				raw := st.Tag(i)
@@ -271,6 +280,7 @@ func checkC17(c *Ctx, r *Report) {
 				continue
 			}
 			usedNames[avpName] = a
+			c17EnumConstants(c, r, dtPkg.Types, f.Type(), a, enumDone)
 			ok2, why := c17TypeCompat(c, f.Type(), a, ds, appID, 0)
 			r.check(ok2, "C17.R2", key+"|"+avpName, c.rel(f.Pos()), "field type "+types.TypeString(f.Type(), shortQual)+" matches "+a.Data.TypeName, why)
 		}
@@ -748,4 +758,56 @@ func c17HasAvpMembers(t types.Type) bool {
 		}
 	}
 	return false
+}
+
+// c17EnumConstants (C17.R8): constants of the member's named integer type vs the <item>s of the
+// Enumerated AVP it carries, matched by name (case and separators ignored).
+func c17EnumConstants(c *Ctx, r *Report, pkg *types.Package, t types.Type, a *dAVP, done map[string]bool) {
+	if len(a.Data.Enum) == 0 {
+		return
+	}
+	nt, ok := t.(*types.Named)
+	if !ok || nt.Obj().Pkg() != pkg {
+		return
+	}
+	if b, ok := nt.Underlying().(*types.Basic); !ok || b.Info()&types.IsInteger == 0 {
+		return
+	}
+	if done[nt.Obj().Name()+"|"+a.Name] {
+		return
+	}
+	done[nt.Obj().Name()+"|"+a.Name] = true
+	norm := func(s string) string {
+		return strings.ToLower(strings.NewReplacer("_", "", "-", "", " ", "").Replace(s))
+	}
+	items := map[string]*dEnum{}
+	for _, it := range a.Data.Enum {
+		items[norm(it.Name)] = it
+	}
+	for _, name := range pkg.Scope().Names() {
+		k, ok := pkg.Scope().Lookup(name).(*types.Const)
+		if !ok || !types.Identical(k.Type(), nt) {
+			continue
+		}
+		v, exact := constant.Int64Val(k.Val())
+		if !exact {
+			continue
+		}
+		it := items[norm(name)]
+		if it == nil {
+			// a prefixed constant (REQ_SUBTYPE_RESERVE for item RESERVE ...): the longest item name that ends it
+			for in, cand := range items {
+				if strings.HasSuffix(norm(name), in) && (it == nil || len(in) > len(norm(it.Name))) {
+					it = cand
+				}
+			}
+		}
+		key := nt.Obj().Name() + "." + name + "|" + a.Name
+		if it == nil {
+			r.info("C17.R8", key, c.rel(k.Pos()), "no item of "+a.Name+" is named like this constant")
+			continue
+		}
+		r.check(int64(it.Code) == v, "C17.R8", key, c.rel(k.Pos()), fmt.Sprintf("= %d, item %s of %s", v, it.Name, a.Name),
+			fmt.Sprintf("constant %s is %d but the dictionary gives item %s of %s the code %d: a peer that follows the dictionary (and every comparison with this constant) means another value - e.g. an initial request is no longer taken for one", name, v, it.Name, a.Name, it.Code))
+	}
 }
